@@ -514,6 +514,16 @@ func Grammar(tier string, v2 bool) []GrammarItem {
 			d.Fields = []*Field{Req("a", a), Opt("e", e)}
 			return []*Type{a, b, c, d, e}
 		})
+		mk("cycle-two-paths", "a two-namespace cycle that can be found from two starting points (one.A -> two.B -> one.C, two.D -> one.A)", func(u *Universe) []*Type {
+			a := u.AddNS("g.one", rec("A"))
+			b := u.AddNS("g.two", rec("B"))
+			c := u.AddNS("g.one", rec("C", Req("x", P(Int32))))
+			d := u.AddNS("g.two", rec("D"))
+			a.Fields = []*Field{Opt("b", b)}
+			b.Fields = []*Field{Opt("c", c)}
+			d.Fields = []*Field{Opt("a", a)}
+			return []*Type{a, b, c, d}
+		})
 		mk("cycle-disjoint", "two disjoint namespace cycles and a record using both", func(u *Universe) []*Type {
 			a := u.AddNS("g.p1", rec("A"))
 			b := u.AddNS("g.p2", rec("B"))
